@@ -30,6 +30,7 @@ type vLeaf struct {
 	empty  bool     // presence container: the value is the empty typed value
 	entry  string   // id of the enclosing list entry ("" = none)
 	keyOf  string   // non-empty: this is the key leaf of that entry (value = keyVal)
+	keyUint bool    // the key is an unsigned integer (stored as UintVal)
 	keyVal string
 	// extensions used by the validator scenarios (C04)
 	strMax   int    // > 0: string leaf with a symbolic value of 0..strMax characters over alphabet
@@ -233,6 +234,10 @@ type vVal struct {
 
 func (l *vLeaf) tv(v vVal) *sdcpb.TypedValue {
 	if l.keyOf != "" {
+		if l.keyUint {
+			u, _ := strconv.ParseUint(l.keyVal, 10, 64)
+			return vUintTV(u)
+		}
 		return vStrTV(l.keyVal)
 	}
 	if l.empty {
@@ -308,6 +313,14 @@ func (l *vLeaf) newVal(tag string) vVal {
 // sameVal: does typed value tv carry v (for leaf l)?  non-forking.
 func (l *vLeaf) sameVal(tv *sdcpb.TypedValue, v vVal) bool {
 	if l.keyOf != "" {
+		if l.keyUint {
+			if _, isStr := tv.GetValue().(*sdcpb.TypedValue_StringVal); isStr {
+				return tv.GetStringVal() == l.keyVal
+			}
+			u, _ := strconv.ParseUint(l.keyVal, 10, 64)
+			_, isUint := tv.GetValue().(*sdcpb.TypedValue_UintVal)
+			return isUint && tv.GetUintVal() == u
+		}
 		return tv.GetStringVal() == l.keyVal
 	}
 	if l.empty {
@@ -376,7 +389,7 @@ func (st *vState) deriveKeys() {
 		for _, o := range st.sc.owners {
 			has := false
 			for _, l := range st.sc.leaves {
-				if l.keyOf == "" && l.entry == k.keyOf && st.pres[l.id][o] {
+				if l.keyOf == "" && vIsPrefix(k.keyOf, l.entry) && st.pres[l.id][o] {
 					has = true
 				}
 			}
@@ -450,7 +463,7 @@ func vArbitraryState(sc *vScenario) *vState {
 			continue
 		}
 		for _, l := range sc.leaves {
-			if l.keyOf == "" && l.entry == k.keyOf && st.rpres[l.id] {
+			if l.keyOf == "" && vIsPrefix(k.keyOf, l.entry) && st.rpres[l.id] {
 				st.rpres[k.id] = true
 				st.rval[k.id] = vVal{s: k.keyVal}
 			}
